@@ -100,7 +100,7 @@ pub fn help_doc(it: &J) -> bpaf::Doc {
         if c > from {
             // neighbouring fragments of one style are merged by bpaf: alternate the styles
             let frag = chars[from..c].iter().collect::<String>();
-            match k % 4 {
+            match if b(it, "help_all_nested") { 3 } else { k % 4 } {
                 0 => doc.text(&frag),
                 1 => doc.literal(&frag),
                 2 => doc.emphasis(&frag),
